@@ -84,47 +84,60 @@ def monitor_c07(scn, impl):
             return "algorithm raised %s on sessions with default bounds" % impl["err"]
         return None
     sched = impl["sched"]
-    if not impl["shape_ok"] or len(sched) != inf["N"]:
-        return "schedule does not map every station to a one-element list"
-    if any(x != x or abs(x) == math.inf for x in sched):
+    rows = impl.get("rows") or [[x] for x in sched]
+    if not impl["shape_ok"] or len(rows) != inf["N"]:
+        return "schedule does not map every station to a non-empty list of pilots"
+    T = len(rows[0])
+    if any(len(r) != T for r in rows):
+        return "the schedule rows have different lengths"
+    if any(x != x or abs(x) == math.inf for r in rows for x in r):
         return "non-finite pilot"
-    # -- feasible for the network
-    exc, j = exact_margin(inf, sched)
-    if exc > SLACK * max(1.0, inf["L"][j] if j is not None else 1.0):
-        return "infeasible schedule: constraint %d exceeded by %.6g A" % (j, exc)
-    if exc < -1e-6:
-        try:
-            if not real_network(inf).is_feasible(np.array(sched).reshape(-1, 1)):
-                return "ChargingNetwork.is_feasible rejects the schedule"
-        except Exception as e:  # noqa
-            return "ChargingNetwork.is_feasible raised %s" % type(e).__name__
     act = {s["st"]: s for s in sess}
-    for i in range(inf["N"]):
-        p = sched[i]
-        if i not in act:
-            if p != 0:
-                return "station %d has no active session but pilot %r" % (i, p)
-            continue
-        s = act[i]
-        et = inf["etype"][i]
-        if et in ("C0", "F"):
-            if not real_evse(inf, i, "x")._valid_rate(p):
-                return "pilot %r not accepted by the %s EVSE of station %d" % (p, et, i)
-        rap = (s["req"] - s["deliv"]) * 1000 / inf["volt"][i] * 60 / scn["period"]
-        if user_min0(s) == 0 and p > max(rap, 0.0) * (1 + SLACK) + SLACK:
-            return "pilot %r exceeds the remaining demand %r A*periods of session %d" % (p, rap, s["sid"])
-        if p < -SLACK:
-            return "negative pilot %r" % p
-        if scn["est"] is not None:
-            b = (impl["store"] or {}).get(s["sid"])
-            if b is None:
-                # finished sessions are removed before the estimator is consulted; they must get 0
+    for t in range(T):                                  # EVERY period of the emitted schedule
+        col = [r[t] for r in rows]
+        # -- feasible for the network
+        exc, j = exact_margin(inf, col)
+        if exc > SLACK * max(1.0, inf["L"][j] if j is not None else 1.0):
+            return "infeasible schedule (period %d of the emitted schedule): constraint %d exceeded by %.6g A" % (t, j, exc)
+        if exc < -1e-6 and t == 0:
+            try:
+                if not real_network(inf).is_feasible(np.array(col).reshape(-1, 1)):
+                    return "ChargingNetwork.is_feasible rejects the schedule"
+            except Exception as e:  # noqa
+                return "ChargingNetwork.is_feasible raised %s" % type(e).__name__
+        for i in range(inf["N"]):
+            p = col[i]
+            if i not in act:
                 if p != 0:
-                    return "session %d has a pilot %r but the estimator was never asked for its bound" % (s["sid"], p)
+                    return "station %d has no active session but pilot %r in period %d" % (i, p, t)
                 continue
-            floor = max(user_min0(s), inf["minp"][i] if scn["unint"] else 0.0)
-            if p > max(b, floor) * (1 + SLACK) + SLACK:
-                return "pilot %r exceeds the estimator bound %r of session %d (minimum pilot %r)" % (p, b, s["sid"], floor)
+            s = act[i]
+            et = inf["etype"][i]
+            if et in ("C0", "F"):
+                if not real_evse(inf, i, "x")._valid_rate(p):
+                    return "pilot %r not accepted by the %s EVSE of station %d" % (p, et, i)
+            if p < -SLACK:
+                return "negative pilot %r" % p
+            if scn["est"] is not None:
+                if scn["est"].get("custom"):
+                    b = scn["est"]["store"].get(s["sid"], math.inf)      # no entry: the estimator imposes no bound
+                else:
+                    b = (impl["store"] or {}).get(s["sid"])
+                if b is None:
+                    # finished sessions are removed before the estimator is consulted; they must get 0
+                    if p != 0:
+                        return "session %d has a pilot %r but the estimator was never asked for its bound" % (s["sid"], p)
+                    continue
+                floor = max(user_min0(s), inf["minp"][i] if scn["unint"] else 0.0)
+                if p > max(b, floor) * (1 + SLACK) + SLACK:
+                    return "pilot %r exceeds the estimator bound %r of session %d (minimum pilot %r)" % (p, b, s["sid"], floor)
+    for i, s in act.items():
+        # the WHOLE emitted schedule of a station, summed over its periods, against the remaining demand in A*periods
+        rap = (s["req"] - s["deliv"]) * 1000 / inf["volt"][i] * 60 / scn["period"]
+        tot = sum(rows[i])
+        if user_min0(s) == 0 and tot > max(rap, 0.0) * (1 + SLACK) + SLACK:
+            return "the %d-period schedule of session %d adds up to %r A*periods, more than its remaining demand %r" % (
+                T, s["sid"], tot, rap)
     return None
 
 
@@ -411,7 +424,13 @@ def make_sim_algo(sim):
     """a real algorithm object with the observers and the call recorder installed; returns the handle
     (algo, est, obs, ctx); ctx is filled by run_sim"""
     import acnportal.algorithms as alg
-    est = alg.SimpleRampdown(*sim["ramp"]) if (sim["est"] and sim["algo"] != "unc") else None
+    est = None
+    if sim["est"] and sim["algo"] != "unc":
+        if sim.get("fixed_bounds") is not None:       # an estimator that is not a SimpleRampdown
+            est = sc.fixed_estimator({sc.session_name(int(k), sim.get("sid_style") or "sess%d"): v
+                                      for k, v in sim["fixed_bounds"].items()})
+        else:
+            est = alg.SimpleRampdown(*sim["ramp"])
     kw = dict(estimate_max_rate=est is not None, max_rate_estimator=est, uninterrupted_charging=sim["unint"])
     if sim["algo"] == "rr":
         algo = alg.RoundRobin(sc.sort_fn(sim["sort"]), continuous_inc=sim["inc"], **kw)
@@ -419,6 +438,8 @@ def make_sim_algo(sim):
         algo = alg.UncontrolledCharging()
     else:
         algo = alg.SortedSchedulingAlgo(sc.sort_fn(sim["sort"]), **kw)
+    if "max_recompute" in sim:
+        algo.max_recompute = sim["max_recompute"]      # set before the Simulator is built (it copies the attribute)
     obs = sc.Observed(algo, est, sim["algo"])
     ctx = {}
     orig_schedule = algo.schedule
@@ -465,7 +486,10 @@ def make_sim_algo(sim):
                          maxs=[float(x) for x in s.max_rates]) for s in active_sessions]
             est_ = obs.est
             e = None
-            if est_ is not None:
+            if est_ is not None and not hasattr(est_, "upper_bounds"):
+                e = dict(up_thr=1.0, down_thr=1.0, up_inc=1.0, store={sc.sid_of(k): float(v) for k, v in est_.bounds.items()},
+                         prev_pilot={}, prev_rate={}, custom=True)
+            elif est_ is not None:
                 e = dict(up_thr=est_.up_threshold, down_thr=est_.down_threshold, up_inc=est_.up_increment,
                          store={sc.sid_of(k): float(v) for k, v in est_.upper_bounds.items()},
                          prev_pilot={sc.sid_of(k): float(v) for k, v in iface.last_applied_pilot_signals.items()},
@@ -473,6 +497,8 @@ def make_sim_algo(sim):
             snap = dict(infra=infra, period=float(iface.period), now=t, sessions=sess,
                         algo=sim_["algo"], sort=sim_["sort"], est=e, unint=sim_["unint"], inc=sim_["inc"],
                         sid_style=sim_.get("sid_style"))
+            if "max_recompute" in sim_:
+                snap["max_recompute"] = sim_["max_recompute"]
         obs.begin()
         out, err = None, None
         try:
@@ -563,8 +589,38 @@ def run_sim(sim, capture=True, reuse=None, plan=None):
                 break
     warns = [str(x.message)[:160] for x in w if "Invalid schedule" in str(x.message)]
     energies = [(str(e.session_id), float(e.energy_delivered), float(e.requested_energy)) for e in sim_obj.ev_history.values()]
+    # every period of the run: a non-zero pilot needs a plugged-in session that still has demand at that moment
+    idle = None
+    try:
+        pil = np.asarray(sim_obj.pilot_signals, dtype=float)
+        rat = np.asarray(sim_obj.charging_rates, dtype=float)
+        ids = list(sim_obj.network.station_ids)
+        volts = [float(v) for v in sim_obj.network._voltages]
+        per = float(sim_obj.period)
+        T = min(pil.shape[1], rat.shape[1], int(sim_obj.iteration))
+        stays = {}
+        for e in sim_obj.ev_history.values():
+            stays.setdefault(ids.index(e.station_id), []).append((int(e.arrival), int(e.departure), float(e.requested_energy), str(e.session_id)))
+        for i in range(len(ids)):
+            for t in range(T):
+                if pil[i, t] == 0:
+                    continue
+                here = [x for x in stays.get(i, []) if x[0] <= t < x[1]]
+                if not here:
+                    idle = "station %r has pilot %r in period %d although no session is plugged in" % (ids[i], float(pil[i, t]), t)
+                    break
+                a0, d0, req, sid = here[0]
+                done = float(np.sum(rat[i, a0:t])) * volts[i] / 1000.0 * per / 60.0
+                if req - done <= 1e-9:
+                    idle = ("station %r has pilot %r in period %d although session %s had already received its %r kWh"
+                            % (ids[i], float(pil[i, t]), t, sid, req))
+                    break
+            if idle:
+                break
+    except Exception as e:  # noqa
+        idle = None
     return dict(calls=calls, warnings=warns, exception=exc, energies=energies, handle=handle,
-                interrupted=resumed)
+                interrupted=resumed, idle=idle)
 
 
 def gen_sim_flip(rng, tier, algo=None, sort=None):
@@ -628,6 +684,8 @@ def sim_violation(res):
     for sid, d, r in res["energies"]:
         if d > r * (1 + 1e-9) + 1e-9:
             return "session %s received %r kWh, more than the %r kWh requested" % (sid, d, r)
+    if res.get("idle"):
+        return res["idle"]
     return None
 
 
@@ -664,6 +722,18 @@ def sim_stream(rng, n_sims, n_calls, tier, mk_case, with_unc=False):
             sim["sid_style"] = rng.choice(sc.SID_STYLES)
         if rng.random() < 0.25:
             sim["dtype"] = "int"
+        if rng.random() < 0.45:
+            sim["max_recompute"] = rng.choice([None, 2, 3, 5, 1])
+        if sim["est"] and sim["algo"] != "unc" and rng.random() < 0.4:
+            fb = {}
+            for e_ in sim["evs"]:
+                mp_ = sim["stations"][e_["st"]]["maxp"]
+                t_ = rng.random()
+                if t_ < 0.3:
+                    continue
+                fb[e_["sid"]] = float(48.0 if t_ < 0.5 else (mp_ + 16 if t_ < 0.6 else (0.0 if t_ < 0.7 else round(rng.uniform(1, mp_), 1))))
+            fb[990] = 64.0
+            sim["fixed_bounds"] = fb
         plan = None
         r_ = rng.random()
         if r_ < 0.5:
